@@ -370,7 +370,9 @@ int pthread_cond_signal(pthread_cond_t* c) {
     for (int i = 0; i < E.nth; ++i) if (E.th[i].st == S_WAIT_COND && E.th[i].cond == co) w[n++] = i;
     progress();
     if (n == 0) return 0;
-    int k = n == 1 ? 0 : take_choice(n, 0);      // which waiter notify_one wakes: every one is explored, at no cost
+    // which waiter notify_one wakes: every one is explored - at no cost under preemption bounding, as a
+    // deviation (all but the lowest id) under delay bounding
+    int k = n == 1 ? 0 : take_choice(n, E.delay_bounded ? (((1ull << n) - 1) & ~1ull) : 0);
     E.trace_hash = mix(E.trace_hash, 0x5151ull ^ (uint64_t(w[k]) << 8));
     wake_cond_waiter(E.th[w[k]]);
     return 0;
